@@ -1459,7 +1459,9 @@ Definition required_material_only : list production := [
   ("zaid_phrase", ["ZAID"; "padding"]);
   ("parameter", ["classifier"; "param_seperator"; "text_phrase"]);
   ("text_phrase", ["NUMBER_WORD"]);
-  ("text_phrase", ["NUMBER_WORD"; "padding"])
+  ("text_phrase", ["NUMBER_WORD"; "padding"]);
+  ("text_phrase", ["NUM_MULTIPLY"]);
+  ("text_phrase", ["NUM_MULTIPLY"; "padding"])
 ].
 Definition required_material : list production :=
   required_base ++ required_params ++ required_intro ++ required_material_only.
@@ -1595,11 +1597,13 @@ Proof.
     apply DF_cons; [exact Hk|]. apply DF_cons; [apply sep_derives; [exact Hb|exact Hp]|].
     apply DF_last. apply (nlist_derives G Hb v H).
   - rule "parameter" ["classifier"; "param_seperator"; "text_phrase"].
-    change ("KEYWORD" :: classes (sep_toks s) ++ classes (("NUMBER_WORD", lib) :: opad_toks p))
-      with (["KEYWORD"] ++ classes (sep_toks s) ++ classes (("NUMBER_WORD", lib) :: opad_toks p)).
+    change ("KEYWORD" :: classes (sep_toks s) ++ classes ((lib_class lib, lib) :: opad_toks p))
+      with (["KEYWORD"] ++ classes (sep_toks s) ++ classes ((lib_class lib, lib) :: opad_toks p)).
     apply DF_cons; [exact Hk|]. apply DF_cons; [apply sep_derives; [exact Hb|exact Hp]|].
-    apply DF_last. rewrite classes_cons. cbn [fst].
-    destruct p as [q|]; simpl opad_toks.
+    apply DF_last. rewrite classes_cons. cbn [fst]. unfold lib_class.
+    destruct (last_is lib "m"); destruct p as [q|]; simpl opad_toks.
+    + rule "text_phrase" ["NUM_MULTIPLY"; "padding"]. dtok. apply DF_last. apply pad_derives; exact Hb.
+    + rule "text_phrase" ["NUM_MULTIPLY"]. dend.
     + rule "text_phrase" ["NUMBER_WORD"; "padding"]. dtok. apply DF_last. apply pad_derives; exact Hb.
     + rule "text_phrase" ["NUMBER_WORD"]. dend.
 Qed.
